@@ -22,6 +22,34 @@ type handshakeContext struct {
 	cache      *dtlsflight.Cache
 	cfg        *dtlsconfig.HandshakeConfig
 	transcript *Transcript
+
+	keyLoggedHandshake   bool
+	keyLoggedApplication bool
+}
+
+// writeKeyLog hands the traffic secrets derived so far to the configured key
+// log writer, once each, in the NSS key log format for TLS 1.3.
+func (c *handshakeContext) writeKeyLog() {
+	if c.cfg == nil || c.cfg.KeyLogWriter == nil {
+		return
+	}
+	clientRandom := c.state.RemoteRandom.MarshalFixed()
+	if c.state.IsClient {
+		clientRandom = c.state.LocalRandom.MarshalFixed()
+	}
+	keys := c.state.KeySchedule
+	if !c.keyLoggedHandshake && len(keys.HandshakeTraffic.Client) != 0 && len(keys.HandshakeTraffic.Server) != 0 {
+		c.keyLoggedHandshake = true
+		c.cfg.WriteKeyLog("CLIENT_HANDSHAKE_TRAFFIC_SECRET", clientRandom[:], keys.HandshakeTraffic.Client)
+		c.cfg.WriteKeyLog("SERVER_HANDSHAKE_TRAFFIC_SECRET", clientRandom[:], keys.HandshakeTraffic.Server)
+	}
+	if !c.keyLoggedApplication && len(keys.ClientApplicationTrafficSecret0) != 0 &&
+		len(keys.ServerApplicationTrafficSecret0) != 0 && len(keys.ExporterMasterSecret) != 0 {
+		c.keyLoggedApplication = true
+		c.cfg.WriteKeyLog("CLIENT_TRAFFIC_SECRET_0", clientRandom[:], keys.ClientApplicationTrafficSecret0)
+		c.cfg.WriteKeyLog("SERVER_TRAFFIC_SECRET_0", clientRandom[:], keys.ServerApplicationTrafficSecret0)
+		c.cfg.WriteKeyLog("EXPORTER_SECRET", clientRandom[:], keys.ExporterMasterSecret)
+	}
 }
 
 func (c *handshakeContext) seedInitialFlights(flights []*dtlsflight.Packet, retransmit bool) error {
@@ -37,8 +65,11 @@ func (c *handshakeContext) commitPreparedFlight(
 		return err
 	}
 	if !c.state.IsClient && flight == dtlsflight13.Flight4 {
-		return DeriveAndStoreApplicationTrafficSecrets(c.state, c.transcript)
+		if err := DeriveAndStoreApplicationTrafficSecrets(c.state, c.transcript); err != nil {
+			return err
+		}
 	}
+	c.writeKeyLog()
 
 	return nil
 }
@@ -101,6 +132,7 @@ func (c *handshakeContext) advanceAfterReceivedFlight(
 		if err := DeriveAndStoreApplicationTrafficSecrets(c.state, c.transcript); err != nil {
 			return receivedFlightTransition{}, err
 		}
+		c.writeKeyLog()
 	}
 	if !c.state.IsClient &&
 		currentFlight == nextFlight &&
@@ -157,7 +189,12 @@ func (c *handshakeContext) parseDependencies() dtlsflight13.ParseDependencies {
 				)
 			},
 			HandshakeTrafficSecretDeriver: func(state *dtlsstate.State13) error {
-				return DeriveAndStoreHandshakeTrafficSecrets(state, c.transcript)
+				if err := DeriveAndStoreHandshakeTrafficSecrets(state, c.transcript); err != nil {
+					return err
+				}
+				c.writeKeyLog()
+
+				return nil
 			},
 			HandshakeRecordProtectionInitializer: InitHandshakeRecordProtection,
 		},
